@@ -113,7 +113,10 @@ def check_chart(ctx, chart, spec, ct, stage, lines, impl, metas):
         ctx.fail("idx-order-not-unique", f"{ct.name} [{stage}]: c:idx {idxs} c:order {orders}", case)
     # value caches vs the Lean model
     tag = "c:yVal" if spec["kind"] in ("xy", "bubble") else "c:val"
-    by_order = sorted(root.xpath("//c:ser", namespaces=lab.NS), key=lambda e: int(e.find("c:order", lab.NS).get("val")))
+    # the order in which the library hands out the supplied series: plots in document order, inside a plot by c:order
+    # (NOT c:order across the whole chart: a combination chart whose orders were permuted interleaves the plots)
+    by_order = [e for pl in root.xpath("//c:plotArea/*[c:ser]", namespaces=lab.NS)
+                for e in sorted(pl.xpath("./c:ser", namespaces=lab.NS), key=lambda e: int(e.find("c:order", lab.NS).get("val")))]
     for ser, (_, data) in zip(by_order, spec["series"]):
         cache = ser.find(tag + "/c:numRef/c:numCache", lab.NS)
         if cache is None:
